@@ -48,7 +48,7 @@ def crlb_split(J, W=None, sigma2=1, log=False):
     idiag = xp.arange(lb.shape[-1])
     crb = lb[..., idiag, idiag]
     if W is not None:  # apply weights
-        crb *= xp.asarray(W)
+        crb = crb * xp.asarray(W)
     if log:
         crb = np.log10(crb)
     return xp.moveaxis(crb, -1, 0)
@@ -65,12 +65,12 @@ def confint(obs, pred, jac, hess=None, *, conflevel=0.95):
     if hess is not None:
         # hessian of MLE
         Hmle = -np.einsum("...nqp,...n->...pq", hess.conj(), res).real
-        Hmle += np.einsum("...np,...nq->...pq", jac.conj(), jac).real
+        Hmle = Hmle + np.einsum("...np,...nq->...pq", jac.conj(), jac).real
         cov = np.linalg.inv(Hmle)
     else:
         jac2 = np.einsum("...np,...nq->...pq", jac.conj(), jac).real
         cov = np.linalg.inv(jac2)
-    cov *= sse[..., np.newaxis, np.newaxis] / dof
+    cov = cov * (sse[..., np.newaxis, np.newaxis] / dof)
 
     # tvalue
     tval = get_tstat_interval(conflevel, dof)
